@@ -38,7 +38,12 @@ man = {
         }
         for c in CHECKS
     ],
-    "not_applicable": NOT_APPLICABLE,
+    "not_applicable": NOT_APPLICABLE
+    + [
+        {"property_id": f"C{i:02d}", "reason": "check under construction in this round (see DESIGN.md §4 for the planned rules); not claimed yet"}
+        for i in range(1, 21)
+        if f"C{i:02d}" not in {c["id"] for c in CHECKS} | {n["property_id"] for n in NOT_APPLICABLE}
+    ],
     "notes": "All checks are static (source-only). Exit 0 = every rule instance discharged (KNOWN-FINDING lines allowed); exit 1 = VIOLATION; "
     "exit 2 = ANALYSIS-ERROR (an anchor vanished / a table no longer folds): never a silent pass. See DESIGN.md.",
 }
